@@ -119,8 +119,8 @@ func (s *sharedEntryAttributes) toXmlInternal(parent *etree.Element, onlyNewOrUp
 				}
 			}
 			return overallDoAdd, nil
-		case s.shouldDelete():
-			// s is meant to be removed
+		case s.parent != nil && s.shouldDelete():
+			// s is meant to be removed (the root has no element of its own: its children carry the operation)
 			// if delete, create the element as child of parent
 			newElem := parent.CreateElement(s.pathElemName)
 			// add namespace if we create doc with namespace and the actual namespace differs from the parent namespace
